@@ -6,6 +6,7 @@ import (
 	"go/constant"
 	"go/token"
 	"go/types"
+	"golang.org/x/tools/go/packages"
 	"math/big"
 	"strings"
 
@@ -119,11 +120,23 @@ func c16Primes(c *Ctx, r *Report) {
 		fault("unresolved anchor: util.bigIntPrimes")
 	}
 	lit, ok := varInit(util, v).(*ast.CompositeLit)
-	if !ok {
-		r.Unk("prime-table", "bigIntPrimes", v.Pos(), "initialiser is not a composite literal")
-		return
-	}
 	seen := map[int64]bool{}
+	if !ok {
+		// built from a table of plain integers: var bigIntPrimes = func() []*big.Int {
+		// for _, p := range smallPrimes { out = append(out, big.NewInt(int64(p))) } … }()
+		nums, why := primesFromBuilder(util, varInit(util, v))
+		if why != "" {
+			r.Unk("prime-table", "bigIntPrimes", v.Pos(), "initialiser is neither a literal of big.NewInt(<constant>) entries nor a loop turning a literal integer table into such entries: "+why)
+			return
+		}
+		for _, n := range nums {
+			if seen[n] {
+				r.Bad("prime-table", fmt.Sprintf("dup-%d", n), v.Pos(), fmt.Sprintf("%d listed twice", n))
+			}
+			seen[n] = true
+		}
+		lit = &ast.CompositeLit{}
+	}
 	for _, el := range lit.Elts {
 		call, ok := el.(*ast.CallExpr)
 		var n int64
@@ -545,9 +558,13 @@ func c16Fermat(c *Ctx, r *Report) {
 		if one, isK := bo.Y.(*ssa.Const); !isK || one.Value.ExactString() != "1" {
 			return
 		}
-		for _, ref := range *phi.Referrers() {
-			if cmp, isB := ref.(*ssa.BinOp); isB && cmp.Op == token.LSS && cmp.X == phi && (cmp.Y == ssa.Value(rounds) || apath(cmp.Y) == rounds.Name()) {
-				ok = true
+		// the test is `i < rounds` at the top, or — for the rotated form go/ssa gives
+		// `for range rounds` — `i+1 < rounds` at the bottom (with `0 < rounds` before the loop)
+		for _, v := range []ssa.Value{phi, bo} {
+			for _, ref := range *v.Referrers() {
+				if cmp, isB := ref.(*ssa.BinOp); isB && cmp.Op == token.LSS && cmp.X == v && (cmp.Y == ssa.Value(rounds) || apath(cmp.Y) == rounds.Name()) {
+					ok = true
+				}
 			}
 		}
 	})
@@ -569,4 +586,62 @@ func c16Fermat(c *Ctx, r *Report) {
 		}
 	}
 	r.Check(ok, "fermat-rounds", "Execute passes N and the configured Rounds", fn.Pos(), "", "the Fermat lint no longer searches the certificate's modulus for the configured number of rounds")
+}
+
+// primesFromBuilder: init is `func() []*big.Int { … for _, p := range T { … append(…,
+// big.NewInt(int64(p))) } … return … }()` with T a package-level array / slice of
+// integer constants that is never written: the numbers of T.
+func primesFromBuilder(util *packages.Package, init ast.Expr) ([]int64, string) {
+	call, ok := init.(*ast.CallExpr)
+	if !ok || len(call.Args) != 0 {
+		return nil, "not an immediately invoked function literal"
+	}
+	fl, ok := call.Fun.(*ast.FuncLit)
+	if !ok {
+		return nil, "not an immediately invoked function literal"
+	}
+	var table *types.Var
+	var loopVar types.Object
+	appended := false
+	ast.Inspect(fl.Body, func(n ast.Node) bool {
+		switch x := n.(type) {
+		case *ast.RangeStmt:
+			if id, ok := x.X.(*ast.Ident); ok {
+				if tv, ok := util.TypesInfo.Uses[id].(*types.Var); ok && tv.Parent() == util.Types.Scope() {
+					table = tv
+					if vid, ok := x.Value.(*ast.Ident); ok {
+						loopVar = util.TypesInfo.Defs[vid]
+					}
+				}
+			}
+		case *ast.CallExpr:
+			if fn, _ := typeutil.Callee(util.TypesInfo, x).(*types.Func); fn != nil && fn.FullName() == "math/big.NewInt" && len(x.Args) == 1 {
+				// big.NewInt(int64(p)) / big.NewInt(p)
+				arg := x.Args[0]
+				if conv, ok := arg.(*ast.CallExpr); ok && len(conv.Args) == 1 {
+					arg = conv.Args[0]
+				}
+				if id, ok := arg.(*ast.Ident); ok && loopVar != nil && util.TypesInfo.Uses[id] == loopVar {
+					appended = true
+				}
+			}
+		}
+		return true
+	})
+	if table == nil || !appended {
+		return nil, "no loop over a package-level integer table that appends big.NewInt(entry)"
+	}
+	tl, ok := varInit(util, table).(*ast.CompositeLit)
+	if !ok {
+		return nil, "the integer table " + table.Name() + " is not a literal"
+	}
+	var out []int64
+	for _, el := range tl.Elts {
+		n, ok := constInt(util.TypesInfo, el)
+		if !ok {
+			return nil, "an entry of " + table.Name() + " is not an integer constant"
+		}
+		out = append(out, n)
+	}
+	return out, ""
 }
